@@ -2,14 +2,17 @@ package stickycookie
 
 import (
 	"net/url"
+	"strings"
 )
 
 // RawValue is a no-op that returns the raw strings as-is.
 type RawValue struct{}
 
 // Get returns the raw value.
+// A ';' is legal in a URL but not in a cookie value (net/http drops it), so it travels escaped;
+// FindURL parses the value as a URL, which restores it.
 func (v *RawValue) Get(raw *url.URL) string {
-	return raw.String()
+	return strings.ReplaceAll(raw.String(), ";", "%3B")
 }
 
 // FindURL gets url from array that match the value.
